@@ -33,6 +33,7 @@ func c18(c *Ctx) {
 	r := c.R
 	r.Explain = "C18 (importing a filesystem tree): decides on the recursive importer (the exported builder that calls os.ReadDir) that (R18.1) the file mode it dispatches on comes from os.Lstat and os.Stat is never called, so symbolic links are seen as links; (R18.2) the dispatch has a directory, a symlink and a regular-file arm and a remaining arm that returns an error with no link; the symlink arm hands os.Readlink's text to the symlink builder and opens nothing, the regular arm hands the opened file to the file builder; (R18.3) in the directory arm every entry returned by os.ReadDir, on every path that continues the loop, is imported recursively under join(root, e.Name()), wrapped into a link named e.Name() whose target and size are that recursive result, and appended — no filter, no skip; (R18.4) the collected links go to the directory builder that chooses between plain and sharded form. Not decided: equality of a read-back with the filesystem."
 	r.Rule("R18.1", "the FileMode driving the dispatch is Mode() of the FileInfo returned by os.Lstat on the root parameter; os.Stat is not called anywhere in the importer")
+	r.Rule("R18.6", "the builders the arms hand to can store what they build: codec agreement at every store site (same check as R16.7) — an empty file stored under the dag-pb prototype makes the import of a valid tree fail")
 	r.Rule("R18.2", "the dispatch tests IsDir(), Type()==ModeSymlink and IsRegular(); the path where all are false returns (nil link, non-nil error); symlink arm: os.Readlink(root) → symlink builder, no os.Open/ReadFile; regular arm: os.Open(root) → file builder")
 	r.Rule("R18.3", "directory arm: range over os.ReadDir(root)'s entries; every cycle of the loop passes the recursive import of path.Join(root, e.Name()), the link constructor named e.Name() with that result's link and size, and the append to the list that is built")
 	r.Rule("R18.5", "the importer and the builders it calls keep no state between imports: no package-level variable of the builder packages is written outside package initialisation (every import writes all of its blocks to the store it was given)")
@@ -254,6 +255,7 @@ func c18(c *Ctx) {
 	}
 
 	c.checkNoBuilderGlobals("R18.5")
+	c.checkStoreCodec("R18.6")
 	// ---- R18.3
 	if b := arms["dir"]; b != nil {
 		done := false
